@@ -766,6 +766,10 @@ def replay_kernel(res):
     ce = res.counterexample or {}
     k = ce.get("kernel")
     cfg = ce.get("backend")
+    if cfg == "x86":
+        sys.path.insert(0, os.path.dirname(os.path.abspath(__file__)))
+        import c03
+        return c03.replay_kernel(res)
     if not k or cfg not in ("P64", "P32") or "_384_" not in k and "_768_" not in k:
         return None
     sys.path.insert(0, os.path.dirname(os.path.abspath(__file__)))
@@ -805,6 +809,18 @@ def register(chk):
         chk.add("%s:Fq::hash_reduce" % cfg, ob_hash_reduce, cfg, "Fq")
         chk.add("%s:Fr::hash_reduce" % cfg, ob_hash_reduce, cfg, "Fr")
         chk.add("%s:Fq::compare" % cfg, ob_fq_compare, cfg)
+    # Fq in the shipped x86-64 configuration IS the assembly: its kernels are decided against the same specifications (obligations shared with C03)
+    import c03
+    from engine import wordspec
+    for kind, (nin, has_p) in wordspec.SIMPLE.items():
+        chk.add("x86:%s:alias=0" % kind, c03.ob_x86_simple, kind, 0)
+        chk.add("x86:%s:alias=1" % kind, c03.ob_x86_simple, kind, 1)
+    for variant in ("", "bmi2_adx"):
+        v = variant or "baseline"
+        chk.add("x86:%s:bigint_768_multiply" % v, c03.ob_x86_multiply, variant, False)
+        chk.add("x86:%s:bigint_768_square" % v, c03.ob_x86_multiply, variant, True)
+        chk.add("x86:%s:fpbase_384_montgomery_reduce" % v, c03.ob_x86_montgomery, variant)
+    chk.add("x86:dispatch-table", c03.ob_dispatch)
     try:
         import c02_loops
         c02_loops.register(chk)
@@ -818,6 +834,8 @@ def main(argv=None):
     sys.path.insert(0, os.path.dirname(os.path.abspath(__file__)))
     for cfg in ("A", "P64") + (("P32",) if chk.tier == "thorough" else ()):
         prog_for(cfg)
+    import c03
+    c03.x86_prog()
     register(chk)
     chk.explanation = ("The real template code of include/core/{bigint,fp}.hpp and src/bls12_381/{fq,fr}.cpp is lowered to LLVM IR from the current "
                        "tree (explicit instantiation TU harness/inst_core.cpp; configurations A, P64 and, thorough, P32) and executed symbolically. "
